@@ -29,15 +29,16 @@ ASSUMES = ["L(X) > 0 for every genotype (CLI refuses a zero error rate)", "inver
            "x^T modelled by fresh positive variables per atom (multiplicative homomorphism only; sound over-approximation)"]
 BOUNDS = {
     "quick": "all genotypes of ploidy 2 with SNV alleles [2,2] and [2,3], ploidy 3 with [2,2]; every (h,j,allele), every interval, both structural step types; exchange with symbolic temperatures",
-    "thorough": "adds ploidy 3 [2,3], [2,2,2]; ploidy 4 [2,2], [2,3]; ploidy 6 [2,2]",
+    "thorough": "adds ploidy 3 [2,3], [2,2,2]; ploidy 4 [2,2], [2,3]",
 }
 OUTSIDE = "larger ploidy / SNV counts; the read model (C04); float rounding; ergodicity"
 WIRING = "orchestration and class-wiring groups: _denovo_assembler -> compound steps / exchange, and DenovoMCMC.fit/_mcmc -> _homozygosity_probabilities / _denovo_assembler, are run with recorders bound through the real callees' signatures: every call must carry the sampler's own symbolic inbreeding, log_unique_haplotypes, reads, counts, non-fixed sites, step probabilities, cache threshold and the temperature ladder sorted ascending"
 TASKS_PER_CHILD = 4
 
 QUICK = [(2, [2, 2]), (2, [2, 3]), (3, [2, 2])]
-# (ploidy 4 with three bi-allelic SNVs -- 330 genotypes -- was tried: it alone needs > 25 min on 16 cores and is left out)
-THOROUGH = QUICK + [(3, [2, 3]), (3, [2, 2, 2]), (4, [2, 2]), (4, [2, 3]), (6, [2, 2])]
+# (ploidy 4 with three bi-allelic SNVs -- 330 genotypes -- was tried: it alone needs > 25 min on 16 cores and is left out; ploidy 6 with
+# two bi-allelic SNVs was half of the tier's cost (tier > 45 min on the loaded sandbox) and was sized out as well)
+THOROUGH = QUICK + [(3, [2, 3]), (3, [2, 2, 2]), (4, [2, 2]), (4, [2, 3])]
 CHUNK = 6
 
 
